@@ -15,7 +15,7 @@ from .. import pb
 NAMING = True
 ID = "C09"
 ORACLE = "Oracle.C09"
-PROPS = ["Props/C09.v", "Props/C09rules.v"]
+PROPS = ["Props/C09.v", "Props/C09rules.v", "Props/C09gen.v"]
 LEVEL = "proof"
 SHARD = 80
 CODES = {
